@@ -1,10 +1,13 @@
 """C10 — Append merges timing, scaling and properties by the documented rules only."""
 from __future__ import annotations
 
+import datetime as dt
 import itertools
 
+import numpy as np
+
 from props import wfm_harness as H
-from props.common import base_of
+from props.common import base_of, outcome
 
 PID = "C10"
 LEAN_MODULE = "NiVerif.Props.C10"
@@ -237,8 +240,6 @@ def run(ctx):
     ctx.exhaustive = True
     ctx.extra["matrix_cells"] = cells
     # appending an array requires timestamps exactly when the receiver is IRREGULAR
-    import datetime as dt
-    import numpy as np
     for kind in ("analog", "digital"):
         for rm in ("none", "R1", "I"):
             for with_ts in (False, True):
@@ -257,6 +258,41 @@ def run(ctx):
                     ctx.violation(what="array append timestamps", mode=rm, with_timestamps=with_ts, observed=rec["err"],
                                   required="timestamps required exactly for IRREGULAR receivers")
                 ctx.case(("arr", kind, rm, with_ts))
+    # a Timing object shared with other waveforms (or simply kept by the caller) is never modified by an append
+    for kind in ("analog", "complex", "digital"):
+        for how in ("array", "waveform", "waveforms", "array-rejected"):
+            world.objs = {}
+            tag = H.SUPPORTED[kind][0] if kind != "digital" else 6
+            rows = world.mk_values(tag, 2, 1, kind == "digital")
+            n1, n2 = world.fresh(), world.fresh()
+            a = H.make_wfm(world, n1, kind, tag, rows, 1, ("I", [1, 2]), 0, {}, extra_cap=rng.choice([0, 4]))
+            b = H.make_wfm(world, n2, kind, tag, rows, 1, ("I", [1, 2]), 0, {})
+            if a is None or b is None:
+                continue
+            shared = a.timing
+            b.timing = shared                         # both waveforms now hold the same Timing object
+            held = list(shared.get_timestamps(0, 2))
+            snap_b = world.snap(kind, b)
+            arr = world.mk_array(tag, world.mk_values(tag, 2, 1, kind == "digital"), 2 if kind == "digital" else 1)
+            good = [H.BASE + dt.timedelta(seconds=5), H.BASE + dt.timedelta(seconds=6)]
+            bad = [H.BASE + dt.timedelta(seconds=5), H.BASE + dt.timedelta(seconds=0)]
+            if how == "array":
+                rec = world.run(f"wappa {n1} {world.arr_token(arr)} 5,6 1", lambda: a.append(arr, good), n1, kind)
+            elif how == "array-rejected":
+                rec = world.run(f"wappa {n1} {world.arr_token(arr)} 5,0 1", lambda: a.append(arr, bad), n1, kind)
+            else:
+                n3 = world.fresh()
+                c = H.make_wfm(world, n3, kind, tag, rows, 1, ("I", [5, 6]), 0, {})
+                rec = world.run(f"wappw {n1} {n3}", lambda: a.append(c if how == "waveform" else [c]), n1, kind)
+                if rec["err"] is None:
+                    world.expect[-1] = "ok " + rec["after"][n1] + " warn=" + ("_" if not rec["warn"] else ",".join(rec["warn"]))
+            now = outcome(lambda: list(shared.get_timestamps(0, 2)))
+            all_now = shared._timestamps
+            if now != ("ok", held) or len(all_now) != 2 or world.snap(kind, b) != snap_b or b.timing is not shared:
+                ctx.violation(what="append modified a Timing object shared with another waveform", kind=kind, how=how,
+                              observed=f"{len(all_now)} timestamps in the shared Timing; bystander {world.snap(kind, b)[:120]}",
+                              required=f"2 timestamps; bystander {snap_b[:120]}")
+            ctx.case(("shared-timing", kind, how))
     # seeded repeated appends
     w = {"appa": 3, "appw": 8, "load": 1, "setcount": 1, "setcap": 1, "settiming": 2, "write": 0, "get": 0, "pickle": 0, "bad": 0}
     mark = len(world.records)
